@@ -84,6 +84,7 @@ From Flocq Require Import Core BinarySingleNaN PrimFloat.
 From PV Require Import proofs.FloatFacts proofs.SampleFloat.
 From PV Require Import gen.GenFns proofs.SourceFacts.
 From PV Require Import proofs.SampleFloat proofs.RangeInst proofs.RatioFloat.
+From PV Require Import model.Basis proofs.BasisFacts.
 
 Theorem C08_F_sample_finite :
   forall (h : handle NumF) (v step g : F), ffin v -> ffin step -> ffin g -> ffin (h_min NumF h)
@@ -141,4 +142,64 @@ Theorem C08_ratio_in_unit_interval_binary64 :
     true.
 Proof. exact F_ratio_in_unit_interval. Qed.
 Print Assumptions C08_ratio_in_unit_interval_binary64.
+
+
+Theorem S_cell_dof_is_source :
+  forall (NN : Num) (pi_ : carrier NN) (f : family) (len ratio : carrier NN), gen_cell_dof NN
+    pi_ f len ratio = cell_dof NN pi_ f len ratio.
+Proof. exact cell_dof_is_source. Qed.
+Print Assumptions S_cell_dof_is_source.
+
+Theorem S_site_basis_is_source :
+  forall (NN : Num) (pi_ : carrier NN) (dof : list bool) (rot : N), gen_site_basis NN pi_ dof
+    rot = site_basis NN pi_ dof rot.
+Proof. exact site_basis_is_source. Qed.
+Print Assumptions S_site_basis_is_source.
+
+Theorem S_wyckoff_dof_is_source :
+  gen_wyckoff_dof = wyckoff_dof.
+Proof. exact wyckoff_dof_is_source. Qed.
+Print Assumptions S_wyckoff_dof_is_source.
+
+Theorem S_generate_basis_is_source :
+  forall (NN : Num) (pi_ : carrier NN) (f : family) (len ratio : carrier NN) (sites : list (list
+    bool)), gen_generate_basis_packed NN pi_ f len ratio sites = generate_basis NN pi_ f len
+    ratio sites /\ gen_generate_basis_potential NN pi_ f len ratio sites = generate_basis NN pi_
+    f len ratio sites.
+Proof. exact generate_basis_is_source. Qed.
+Print Assumptions S_generate_basis_is_source.
+
+Theorem S_source_declares_the_ranges :
+  forall (NN : Num) (pi_ : carrier NN) (f : family) (len ratio : carrier NN) (sites : list (list
+    bool)) (d : decl NN), In d (gen_generate_basis_packed NN pi_ f len ratio sites) \/ In d
+    (gen_generate_basis_potential NN pi_ f len ratio sites) -> declared NN pi_ f len ratio d.
+Proof. exact source_declares_the_ranges. Qed.
+Print Assumptions S_source_declares_the_ranges.
+
+Theorem S_source_angle_handle_only_oblique :
+  forall (NN : Num) (pi_ : carrier NN) (f : family) (len ratio : carrier NN) (sites : list (list
+    bool)) (d : decl NN), In d (gen_generate_basis_packed NN pi_ f len ratio sites) -> d_var NN
+    d = VAngle -> f = Monoclinic.
+Proof. exact source_angle_handle_only_oblique. Qed.
+Print Assumptions S_source_angle_handle_only_oblique.
+
+Theorem S_source_ratio_handle_only_oblique_or_rectangular :
+  forall (NN : Num) (pi_ : carrier NN) (f : family) (len ratio : carrier NN) (sites : list (list
+    bool)) (d : decl NN), In d (gen_generate_basis_packed NN pi_ f len ratio sites) -> d_var NN
+    d = VRatio -> f = Monoclinic \/ f = Orthorhombic.
+Proof. exact source_ratio_handle_only_oblique_or_rectangular. Qed.
+Print Assumptions S_source_ratio_handle_only_oblique_or_rectangular.
+
+Theorem S_source_number_of_handles :
+  forall (NN : Num) (pi_ : carrier NN) (f : family) (len ratio : carrier NN) (sites : list (list
+    bool)), Forall (fun dof : list bool => dof = wyckoff_dof) sites -> Datatypes.length
+    (gen_generate_basis_packed NN pi_ f len ratio sites) = match f with | Monoclinic => 3 |
+    Orthorhombic => 2 | _ => 1 end + 3 * Datatypes.length sites.
+Proof. exact source_number_of_handles. Qed.
+Print Assumptions S_source_number_of_handles.
+
+Theorem S_probes_are_the_source_basis :
+  forallb (state_matches_source gen_groups) gen_bounds = true.
+Proof. exact probes_are_the_source_basis. Qed.
+Print Assumptions S_probes_are_the_source_basis.
 
